@@ -160,18 +160,14 @@ class ResourceAuthZAttributes:
             # site must be set (typically set by Topology.validate())
             if not sliver.site:
                 sliver.site = "UNKNOWN-SITE"
-            if sliver.site not in self._attributes[resource_name]:
-                self._attributes[resource_name].append(sliver.site)
-
             # Additional condition for PortMirror to not throw an error if the
-            # port being mirrored is within the same slice
-            if sliver.resource_type == ServiceType.PortMirror and \
-                    sliver.mirror_port in in_slice_ports and \
-                    len(self._attributes[resource_name]):
-                # Specific logic for PortMirror if needed
-                self._attributes[resource_name].pop()
-                if len(self._attributes[resource_name]) == 0:
-                    self._attributes.pop(resource_name)
+            # port being mirrored is within the same slice: such a service contributes
+            # no mirror site. Decide this before touching the list, so that a site
+            # contributed by another (out-of-slice) mirror service is never removed.
+            in_slice_mirror = sliver.resource_type == ServiceType.PortMirror and \
+                sliver.mirror_port in in_slice_ports
+            if not in_slice_mirror and sliver.site not in self._attributes[resource_name]:
+                self._attributes[resource_name].append(sliver.site)
 
     def _collect_attributes_from_base_sliver(self, sliver: BaseSliver):
         if isinstance(sliver, NetworkServiceSliver):
